@@ -9,7 +9,7 @@ From C17 Require Import Sem Progs Static.
    FutureImpl::m_mutex protects m_ref_count, m_is_set, m_value *)
 Definition gv (x : nat) : option nat :=
   match x with
-  | 0 => Some M | 1 => Some TM | 8 => Some FM | 9 => Some FM | 10 => Some FM | _ => None
+  | 0 => Some M | 1 => Some TM | 4 => Some PM | 8 => Some FM | 9 => Some FM | 10 => Some FM | _ => None
   end.
 Definition gq (q : nat) : option nat := match q with 0 => Some M | 2 => Some IM | _ => None end.
 
@@ -20,6 +20,7 @@ Definition mc := mkA [M] true.
 Definition nc := mkA [] true.
 Definition f_ := mkA [FM] false.
 Definition i_ := mkA [IM] false.
+Definition p_ := mkA [PM] false.
 
 Definition a_exec_main : list abs :=
   [ n_; t_; t_; t_; t_; t_; t_;  n_; n_; n_; n_;  n_; t_; t_; n_; n_; m_; m_; n_;
@@ -44,12 +45,14 @@ Definition An : annot := fun id =>
   | 11 => [ n_; n_; i_; i_; n_; n_; n_ ]
   | 12 => [ n_; t_; t_; t_; t_; t_; t_; n_; n_; n_; n_; n_; t_; t_; n_; n_; m_; m_; n_; n_; t_; t_; n_; n_; n_; n_; t_; t_; n_; n_; m_; m_; mc; nc; n_; m_; m_; n_; n_; m_; n_; n_; n_; n_; n_; m_; m_; mc; nc; n_; m_; m_; n_; n_; m_; n_ ]
   | 13 => [ n_; t_; t_; n_; n_; m_; m_; mc; nc; n_; m_; m_; n_; n_; m_; m_; m_; m_; m_; n_ ]
+  | 14 => [ n_; t_; t_; t_; t_; t_; t_; n_; p_; p_; n_; n_; t_; t_; n_; n_; n_; n_; t_; t_; n_ ]
+  | 15 => [ n_; t_; t_; n_; n_; n_; p_; p_; p_; p_; p_; n_; p_; n_; n_; p_; n_ ]
   | _ => []
   end.
 
 Lemma check_all : forall id, check_prog gv gq (P id) (An id) = true.
 Proof.
-  intros id. do 14 (destruct id as [|id]; [vm_compute; reflexivity|]). reflexivity.
+  intros id. do 16 (destruct id as [|id]; [vm_compute; reflexivity|]). reflexivity.
 Qed.
 
 (* the pre-fix code does not pass: Thread::Join wrote m_running without Thread::m_mutex *)
@@ -63,7 +66,8 @@ Inductive initial : state -> Prop :=
 | init_fr : initial init_fut_raw
 | init_fc g : initial (init_fut_copy g)
 | init_s lims rs k : initial (init_ss lims rs k)
-| init_er lims rs : initial (init_execre lims rs).
+| init_er lims rs : initial (init_execre lims rs)
+| init_p : initial init_periodic.
 
 Lemma initial_inv s0 : initial s0 -> Inv P An s0 /\ fault s0 = None.
 Proof.
@@ -80,4 +84,5 @@ Proof.
     match goal with |- context [if ?c then _ else _] => destruct c end; cbn; auto.
   - destruct t as [|[|i]]; cbn; auto.
     match goal with |- context [if ?c then _ else _] => destruct c end; cbn; auto.
+  - destruct t as [|[|i]]; cbn; auto.
 Qed.
